@@ -83,7 +83,7 @@ fn classify(_f: &Failure) -> Option<String> {
 
 pub fn run(report: &mut Report, replay: Option<&Value>) {
     report.rule = "enums with 1-6 values in all name styles incl. Rust keywords, reachable from a response field, a variable or an input field; strings: every schema value, near misses (case, underscores, prefix/suffix, heck conversions), empty, `Other`, non-ASCII, long, random; non-string JSON. Oracle: to_value(from_value::<E>(s)) == s for every string; schema values map to pairwise distinct non-Other variants (Debug form), every other string to Other(s); non-strings are Err. Non-trivial: the enum has a keyword or mixed-case value, or normalization = rust; distinct by hash(schema, enum, string, normalization).".into();
-    report.assumptions = vec!["rustc 1.95 + serde/serde_json as installed are correct".into(), "`self` / `Self` as enum values are excluded here (enumerated by C11)".into()];
+    report.assumptions = vec!["rustc 1.95 + serde/serde_json as installed are correct".into()];
     if let Some(v) = replay {
         replay_e1(report, v);
         return;
